@@ -27,6 +27,7 @@ props! {
     c10 => "C10",
     c11 => "C11",
     c12 => "C12",
+    c13 => "C13",
     c17 => "C17",
     c19 => "C19",
 }
